@@ -316,7 +316,7 @@ type caseResult struct {
 	Digests  []string         `json:"digests"`  // distinct baseline trace digests
 	Viols    []viol           `json:"viols"`    // lattice violations (already minimal)
 	Groups   []*group         `json:"groups"`   // order violations (minimal), to be merged by the parent
-	Flaky    string           `json:"flaky"`    // non-reproducible difference (harness error)
+	Unrepro  []string         `json:"unrepro"`  // differences that did not recur in two re-executions (noted, not reported)
 	CorpusEr string           `json:"corpuser"` // corpus self-check failure (harness error)
 }
 
@@ -412,12 +412,18 @@ func (e *env) latticeCase(tier, engine string, limit uint32, p *program, only in
 			res.Evals++
 			k, d := diffTraces(ref.tr, r.tr)
 			if k != "" {
-				// confirm before believing it
-				again := e.runPoint(p, s, pt.Cache)
-				k2, _ := diffTraces(ref.tr, again[ri].tr)
-				if k2 != k {
-					res.Flaky = fmt.Sprintf("%s %s %+v run %d: first %q then %q", p.Name, engine, pt, ri, k, k2)
-					return res
+				// confirm before believing it: the point must differ again (not necessarily at the same step:
+				// a stale-pointer defect reads whatever happens to be there) in one of two re-executions
+				recurs := false
+				for a := 0; a < 2 && !recurs; a++ {
+					again := e.runPoint(p, s, pt.Cache)
+					k2, _ := diffTraces(ref.tr, again[ri].tr)
+					recurs = k2 != ""
+				}
+				if !recurs {
+					res.Unrepro = append(res.Unrepro, fmt.Sprintf("%s %s limit %d %+v runtime %d: %s (%s) did not recur in two re-executions", p.Name, engine, limit, pt, ri+1, k, d))
+					e.inc("lattice:difference-not-reproduced")
+					continue
 				}
 				if worst == "" {
 					worst, wdetail = k, fmt.Sprintf("runtime %d of the point: %s", ri+1, d)
@@ -754,14 +760,16 @@ func (e *env) ordersCase(tier, engine string, p *program, cache string, only int
 				e.inc("order:equal")
 				continue
 			}
-			again := e.runScenario(p, engine, sc)
-			k2, _ := diffTraces(b.tr, again[pos].tr)
-			if k2 == "" && again[pos].s.Listener && again[pos].lstLine != b.lst {
-				k2 = "listener-events"
+			recurs := false
+			for a := 0; a < 2 && !recurs; a++ {
+				again := e.runScenario(p, engine, sc)
+				k2, _ := diffTraces(b.tr, again[pos].tr)
+				recurs = k2 != "" || (again[pos].s.Listener && again[pos].lstLine != b.lst)
 			}
-			if k2 != k {
-				res.Flaky = fmt.Sprintf("%s %s %+v position %d: first %q then %q", p.Name, engine, sc, pos, k, k2)
-				return res
+			if !recurs {
+				res.Unrepro = append(res.Unrepro, fmt.Sprintf("%s %s %+v position %d: %s (%s) did not recur in two re-executions", p.Name, engine, sc, pos, k, d))
+				e.inc("order:difference-not-reproduced")
+				continue
 			}
 			e.inc("order:diff:" + k)
 			if failing[sc.key()] == nil {
@@ -1082,9 +1090,8 @@ func main() {
 			finish()
 			fw.Fatalf("corpus self-check: %s", r.CorpusEr)
 		}
-		if r.Flaky != "" {
-			finish()
-			fw.Fatalf("non-reproducible difference (harness error, not a verdict): %s", r.Flaky)
+		for _, u := range r.Unrepro {
+			run.Note("unreproduced difference (not reported): %s", u)
 		}
 		evals += r.Evals
 		runs += r.Runs
